@@ -1084,6 +1084,14 @@ func (x *c09Seq) doSwap(a core.Action) {
 	if i == j {
 		return
 	}
+	// (after an earlier fault a file the model still counts may be gone from the disk:
+	// nothing to exchange then)
+	if _, err := os.Stat(pi); err != nil {
+		return
+	}
+	if _, err := os.Stat(pj); err != nil {
+		return
+	}
 	tmp := pi + ".swap"
 	if err := os.Rename(pi, tmp); err != nil {
 		x.infra = err
